@@ -733,6 +733,36 @@ def expr_type(e):
     return ""
 
 
+_CANON_CACHE = {}
+
+
+def role_bound(f, kind, ub):
+    from .canon import Canon
+    import re as _re
+    cn = _CANON_CACHE.get(f.id)
+    if cn is None:
+        cn = _CANON_CACHE[f.id] = Canon(f)
+    creator = {"Vertex": "add_vertex", "HalfEdge": "add_edge", "HalfFace": "add_face"}.get(kind)
+    if not creator:
+        return None
+    drivers = set()
+    for hdr, body, backs in f.loops():
+        t = f.term(hdr)
+        if not t or not t.get("cond"):
+            continue
+        m = _re.fullmatch(r"\(it\d+\(0\w*\) < (.+)\)", cn.s(t["cond"]))
+        if not m:
+            continue
+        if any(x.get("pn", "").split("::")[-1] == creator and b in body for b, i, x in f.nodes(("call",))):
+            drivers.add(m.group(1))
+    for bnd, ctext in ub:
+        bs = cn.s(bnd)
+        for v in drivers:
+            if (kind == "Vertex" and bs == v) or (kind != "Vertex" and bs in ("(2 * %s)" % v, "(%s * 2)" % v)):
+                return ctext
+    return None
+
+
 def range_rules(ck, fb):
     ck.rule("R.handle", "in reader code every handle built from a decoded integer (from_unsigned, Handle(int), emplace_back(int) into a handle vector) is guarded by an upper-bound comparison of that very integer expression against the reader's counter of that kind (factor 2 for half-entities), and by a lower bound when the integer is signed")
     ck.rule("R.index", "props_[i] and valence vectors are only indexed behind a bound check of the same index")
@@ -801,6 +831,10 @@ def range_rules(ck, fb):
                     if nm in bt and (not need2 or "2 * " in bt or " * 2" in bt):
                         good = ctext
             fixture = "/verif/fixtures/" in f.file
+            if not good and not fixture and f.cls != BFR and not (f.kind == "lambda" and "BinaryFileReader" in (f.d.get("lambda_parent") or "")):
+                # readers without member counters (OVM ASCII): the bound is found by role - the declared count V that drives
+                # the loop creating the entities of that kind (for (i < V) add_edge / add_face / add_vertex), doubled for halves
+                good = role_bound(f, kind, ub)
             if not good:
                 if fixture:
                     canary = True
